@@ -52,10 +52,18 @@ class Report:
         """An anchor or rule instance the rule relies on must exist; otherwise the
         analysis is broken (exit 2), never a pass and never a violation."""
         if not cond:
+            if self.violations:
+                # an obligation already failed on this report: that finding stands; the missing instances are
+                # most likely its consequence
+                self.notes.append("instances missing after a failed obligation: %s" % msg)
+                return
             raise AnalysisBroken("[%s] %s" % (self.prop, msg))
 
     def min_instances(self, rule, n):
         got = self.instances.get(rule, 0)
+        if got < n and self.violations:
+            self.notes.append("[%s.%s] only %d rule instances matched after a failed obligation" % (self.prop, rule, got))
+            return
         if got < n:
             raise AnalysisBroken("[%s.%s] only %d rule instances matched, %d confirmed by hand "
                                  "(variant %s)" % (self.prop, rule, got, n, self.variant))
@@ -92,7 +100,15 @@ def run_property(prop, tier, repo=None, variants=None, verbose=True, replay=None
         P.repo = repo
         P.variant = v
         rep = Report(prop, tier, v)
-        mod.run(P, rep, tier)
+        try:
+            mod.run(P, rep, tier)
+        except AnalysisBroken as e:
+            # a rule lost its instances *after* an obligation had already failed: the failed obligation is a
+            # finding about the code in its own right and is reported; without one the analysis is broken
+            if not rep.violations:
+                raise
+            rep.note("analysis stopped early: %s" % e)
+            print("note: %s (violations found before that point are reported)" % e)
         reports.append(rep)
         stats[v] = P.stats()
         if repo != build.REPO and not os.environ.get("VERIF_KEEP_CACHE"):
